@@ -52,12 +52,48 @@ def rendezvous(case_graph, nodes_A, workers, scheduler, timeout=12.0):
     return state["peak"], target
 
 
+def rendezvous_user(case_graph, nodes_A, workers, scheduler, timeout=12.0):
+    """The same through the public entry point: a Plan with one call per node and an add_dependency per edge, run with
+    `uberjob.run(max_workers=...)` (whatever run_physical does with the worker count is part of what is measured)."""
+    import uberjob
+    target = min(workers, len(nodes_A))
+    cond = threading.Condition()
+    state = {"in": 0, "peak": 0, "ok": False}
+    A = set(nodes_A)
+
+    def make(n):
+        def fn():
+            if n not in A:
+                time.sleep(0.015)
+                return n
+            with cond:
+                state["in"] += 1
+                state["peak"] = max(state["peak"], state["in"])
+                if state["in"] >= target:
+                    state["ok"] = True
+                    cond.notify_all()
+                else:
+                    cond.wait_for(lambda: state["ok"], timeout=timeout)
+                state["in"] -= 1
+            return n
+        fn.__name__ = fn.__qualname__ = "n%s" % (n,)
+        return fn
+
+    plan = uberjob.Plan()
+    N = {n: plan.call(make(n)) for n in case_graph.nodes()}
+    for u, v in set(case_graph.edges()):
+        plan.add_dependency(N[u], N[v])
+    uberjob.run(plan, output=list(N.values()), max_workers=workers, scheduler=scheduler, progress=None)
+    return state["peak"], target
+
+
 def parallel_runs(ctx, replay=None):
     """`whenever at least max_workers independent calls are ready that many do run in parallel` and never more."""
     if replay is not None:
         case = replay["case"]
         g = ee.build_graph(case)
-        peak, target = rendezvous(g, replay["antichain"], case["workers"], case["scheduler"])
+        fnr = rendezvous_user if replay.get("user_level") else rendezvous
+        peak, target = fnr(g, replay["antichain"], case["workers"], case["scheduler"])
         return None if peak == target else f"only {peak} of {target} independent ready calls ran in parallel"
     rng = random.Random(ctx.seed * 13 + 3)
     n_cases = 40 if ctx.tier == "quick" else 600
@@ -83,12 +119,13 @@ def parallel_runs(ctx, replay=None):
         A = max_antichain(g)
         w = rng.choice([2, 3, 4, len(A), len(A) + 1])
         case.update(workers=w, max_errors=0, scheduler=rng.choice(["default", "random"]), failing={})
-        peak, target = rendezvous(g, A, w, case["scheduler"])
+        user_level = rng.random() < 0.5
+        peak, target = (rendezvous_user if user_level else rendezvous)(g, A, w, case["scheduler"])
         done += 1
         nontriv += target >= 2
         if peak < target:
             viol.append({"property": "C10", "what": f"only {peak} of {target} independent ready calls ran in parallel (max_workers={w})",
-                         "case": case, "antichain": A, "replay_fn": "parallel_runs"})
+                         "case": case, "antichain": A, "replay_fn": "parallel_runs", "user_level": user_level})
         elif peak > w:
             viol.append({"property": "C10", "what": f"{peak} calls ran concurrently with max_workers={w}", "case": case,
                          "antichain": A, "replay_fn": "parallel_runs"})
